@@ -232,6 +232,7 @@ def self_test():
 
 
 LAWS = [
+    given_law("hi_covariance_xl", cfgs(44), hi_body, {"quick": 0, "thorough": 2}, shards={"quick": 1, "thorough": 16}),
     given_law("hi_covariance", cfgs(24), hi_body, {"quick": 12, "thorough": 100}, shards={"quick": 6, "thorough": 16}),
     given_law("sub_harmonics", cfgs(16), sh_body, {"quick": 8, "thorough": 80}, shards={"quick": 6, "thorough": 16}),
     given_law("hi_covariance_large", cfgs(32), hi_body, {"quick": 2, "thorough": 20}, shards={"quick": 3, "thorough": 16}),
